@@ -425,6 +425,9 @@ func (p *streamPool) getOrOpenStream() (*Stream, error) {
 				return stream, nil
 			}
 		}
+		// a pooled stream that cannot be handed out any more (closed by the peer, or its session
+		// is gone) must be closed here, otherwise it stays in the session's stream table forever
+		stream.Close()
 	}
 
 	stream, err := p.Session().OpenStream()
